@@ -64,6 +64,33 @@ func (p *Path) intrinsic(caller *frame, fn *ssa.Function, name string, args []Va
 		}
 		*st = smt.ConstBV(32, 1)
 		return smt.True, true
+	case "regexp.Compile":
+		pat := p.strArg(args[0], "regexp pattern")
+		rx, err := compileRx(pat)
+		if err != nil {
+			var cell Value = Struct{mkStr(err.Error())}
+			return Tuple{(*RxVal)(nil), Iface{T: types.NewPointer(p.in.errorsErrorString), V: &cell}}, true
+		}
+		return Tuple{rx, Iface{}}, true
+	case "regexp.MustCompile":
+		pat := p.strArg(args[0], "regexp pattern")
+		rx, err := compileRx(pat)
+		if err != nil {
+			panic(targetPanic{msg: "regexp: Compile(" + pat + "): " + err.Error()})
+		}
+		return rx, true
+	case "(*regexp.Regexp).MatchString":
+		rx := args[0].(*RxVal)
+		if rx == nil {
+			panic(targetPanic{msg: "nil *regexp.Regexp"})
+		}
+		s := args[1].(Str)
+		if s.isConcrete() {
+			return smt.ConstBool(rx.re.MatchString(s.c)), true
+		}
+		return p.rxMatch(rx, s.bytesOrAbort(p), false, false), true
+	case "(*regexp.Regexp).String":
+		return mkStr(args[0].(*RxVal).src), true
 	case "(*strings.Builder).copyCheck":
 		return nil, true
 	case "(*strings.Builder).String":
